@@ -105,6 +105,9 @@ func (ex *Exec) callBuiltin(caller *frame, fn *ssa.Builtin, args []Value) Value 
 		case string:
 			return CInt(uint64(len(x)), 64)
 		case SymStr:
+			if x.B != nil {
+				return CInt(uint64(len(x.B)), 64)
+			}
 			return SInt(SeqLen(x.T))
 		case Array:
 			return CInt(uint64(len(x)), 64)
